@@ -2,6 +2,7 @@
 C15  The outcome of load() does not depend on earlier loads on the same dataset.
 -/
 import OsyrisModel
+import OsyrisModel.Generated.ReaderState
 
 namespace Osyris.C15
 open Osyris Osyris.LoadHistory Osyris.LoadEngine
@@ -38,5 +39,11 @@ theorem C15_leak_witness (o : Ramses.Output) (rq : Request) (hm : rq.meshOn = fa
     (hp : (rq.partOn && o.part.isSome) = true) (l : List Nat) :
     (LoadHistory.step false o (some l) rq).2 = l := by
   simp [LoadHistory.step, amrInitialize, cpusUsed, hm, hc, hp]
+
+/-- **C15 (no reader field survives a call unreset)** — obligation on the table regenerated from io/*.py on every run
+    (harness/readerstate.py: must-assign analysis of every reader's `initialize`): `initialized` and `cpu_list`, which
+    `Loader.load` inspects right after `initialize`, are assigned on every path through it, and no field that a reader
+    assigns outside `__init__` decides a branch or the result of `initialize` before it has been assigned there. -/
+theorem C15_no_stale_reader_fields : Generated.staleReaderFields = [] := by decide
 
 end Osyris.C15
